@@ -52,6 +52,10 @@ def r1_r2(prog, rep):
     ifs = [n for n in walk_own(init.node) if isinstance(n, ast.If) and T(mod, n.test) == K("polygons.clockwise(wall)")]
     ok = len(ifs) == 1 and not ifs[0].orelse and len(ifs[0].body) == 1 and T(mod, ifs[0].body[0]) == K("wall=wall[::-1]")
     rep.ob("R1", "the wall is reversed exactly when it is clockwise", ok, init.site(ifs[0]) if ifs else init.site(), "", key="wall/orientation")
+    # what `clockwise` means: the sign of the shoelace area of the closed polygon (rule instances of C20.R5)
+    from ..report import Premise
+    from . import c20
+    c20.area_rules(prog, Premise(rep, "R1", "C20"), "R5")
     ok = any(isinstance(s, ast.Assign) and T(mod, s) == K("self.wall=[Point2D(r,z)forr,zinwall]") for s in walk_own(init.node))
     rep.ob("R1", "self.wall holds the (normalised) wall points in order", ok, init.site(), "", key="wall/store")
     # order: normalisation precedes the store
